@@ -123,6 +123,8 @@ func vDrawDirList(m *vFS, maxLen int) ([]*vDir, []string) {
 }
 
 func H_C01_precedence() {
+	vThirdFile = true
+	defer func() { vThirdFile = false }()
 	m := vDrawFS(vparam("NDIRS"), false, vparam("NDEVS"))
 	defer vCleanupFS()
 	list, paths := vDrawDirList(m, vparam("NLIST"))
